@@ -25,7 +25,8 @@ EXPLANATION = (
     "lookup in reserve_or_steal happens only on the reserved arm), R-RESERVED-CLASS-STABLE (no writer changes the class of a reserved "
     "tree), P-CHANGE-ID (a tree id from the API is bounds-checked before it indexes the tree array), P-EMPTY (initialisation handles an "
     "empty table array), P-SORTED-BUFFER (guards of the slicing in SortedBuffer::add), and the rules the ledger cites as premises of "
-    "counter assertions: R-BALANCE-T / R-BALANCE (C04), R-RESERVE-BEFORE-LOWER (C15), R-UNRESERVE-OWNED (C03)."
+    "counter assertions: R-BALANCE-T / R-BALANCE (C04), R-RESERVE-BEFORE-LOWER (C15), R-UNRESERVE-OWNED (C03), "
+    "R-NVM-LAYOUT (C17; the region-size guard that keeps the slicing in NvmAlloc::create in range)."
 )
 
 TR = "llfree::trees::Tree::"
@@ -191,3 +192,5 @@ def run(rep, programs):
     c04.r_balance(rep, prog)
     c15.r_reserve_before_lower(rep, prog)
     c03.r_unreserve_owned(rep, prog)
+    from props import c17
+    c17.r_nvm_layout(rep, prog)      # premise of the ledger entry for NvmAlloc::create
